@@ -62,7 +62,7 @@ def gen_cases(tier, seed):
     for i, c in enumerate(cases):
         c["side"] = (i % 5 == 0) and not c["x"]
     # operators with exact structure (constant vector = non-dominant eigenvector of A^H A): every solver, default steps
-    for A in ("sym2", "circ3"):
+    for A in ("sym2", "circ3", "adj22"):
         for solver in SOLVERS:
             for lam in (0, 0.5):
                 for pg in (None, "l1", "box"):
@@ -111,7 +111,7 @@ def setup(case, seed):
     r = np.random.default_rng(31 + seed)
     An = case["A"]
     cplx = An == "cplx32"
-    n = 2 if An in ("real32", "cplx32", "sym2", "circ3") else 3
+    n = 2 if An in ("real32", "cplx32", "sym2", "circ3", "adj22") else 3
     if An == "circ3":
         n = 3
     if An == "identity":
@@ -129,10 +129,15 @@ def setup(case, seed):
     elif An == "circ3":
         Am = np.array([[2.0, -1.0, 0.0], [0.0, 2.0, -1.0], [-1.0, 0.0, 2.0]])     # circulant: A^H A has eigenvalue 1 on ones, 7 elsewhere
         A = sp.linop.MatMul([n, 1], Am)
+    elif An == "adj22":
+        # the operator given through MatMul's adjoint flag: A x = B^H x for a square, non-normal B
+        Bm = np.array([[1.0, 2.0], [0.0, 0.5]])
+        Am = Bm.conj().T.copy()
+        A = sp.linop.MatMul([n, 1], Bm, adjoint=True)
     else:
         Am = r.standard_normal((3, 2)) + (1j * r.standard_normal((3, 2)) if cplx else 0)
         A = sp.linop.MatMul([n, 1], Am)
-    col = An in ("real32", "cplx32", "sym2", "circ3")
+    col = An in ("real32", "cplx32", "sym2", "circ3", "adj22")
     shp = [n, 1] if col else [n]
     dt = np.complex128 if cplx else np.float64
     xt = np.array([0.8, -0.05, 0.3][:n], dtype=dt) * ((1 + 0.5j) if cplx else 1)
